@@ -13,6 +13,8 @@
 //!   nestedopt contains `Option<Option<_>>`: the inner `None` collapses (documented), compare after `norm`
 //!   unordered contains a hash map / hash set: recorded call streams are not comparable, only `==`
 //!   borrowed  the target borrows from the arrays (`&'a str`, `&'a [u8]`, `Cow<'a, str>`)
+//!   badroot   the type is not a root `from_type` supports (not traced to a non-nullable struct): refused under every
+//!             option set (`C04_root_refused`; the driver compares the flag with the model's `recordRoot`)
 #![allow(dead_code)]
 use serde::{Deserialize, Serialize};
 use serde_json::{json, Value};
@@ -334,6 +336,64 @@ pub struct NewtypeOfStruct(pub Inner);
 impl Describe for NewtypeOfStruct {
     fn ty() -> Value {
         newtype("NewtypeOfStruct", d::<Inner>())
+    }
+}
+
+// ---- root kinds (C04, Props/C04Root2.lean, Props/C04RootKinds.lean): `from_type` supports every root that is traced to a
+// non-nullable struct — a struct with named fields, a tuple struct, a tuple / array, a newtype struct around one of these —
+// and refuses the others (flag `badroot`)
+
+/// a newtype of a newtype of a record: the columns of `Inner`
+#[derive(Serialize, Deserialize, Debug, PartialEq, Clone)]
+pub struct NewtypeOfNewtype(pub NewtypeOfStruct);
+
+impl Describe for NewtypeOfNewtype {
+    fn ty() -> Value {
+        newtype("NewtypeOfNewtype", d::<NewtypeOfStruct>())
+    }
+}
+
+/// a newtype of a tuple struct: the columns "0", "1", "2"
+#[derive(Serialize, Deserialize, Debug, PartialEq, Clone)]
+pub struct NewtypeOfTuple(pub TupleStruct);
+
+impl Describe for NewtypeOfTuple {
+    fn ty() -> Value {
+        newtype("NewtypeOfTuple", d::<TupleStruct>())
+    }
+}
+
+/// a tuple struct root with an enum, an optional record and a nested Option
+#[derive(Serialize, Deserialize, Debug, PartialEq, Clone)]
+pub struct TupleStructRich(pub u8, pub DataOnly, pub Option<Inner>, pub Vec<Option<String>>);
+
+impl Describe for TupleStructRich {
+    fn ty() -> Value {
+        tuple_struct("TupleStructRich", vec![d::<u8>(), d::<DataOnly>(), d::<Option<Inner>>(), d::<Vec<Option<String>>>()])
+    }
+}
+
+/// an array as the root: a tuple of three equal types, columns "0", "1", "2"
+pub type RootArray = [Option<i16>; 3];
+
+/// a tuple struct without fields: zero columns, like `struct Empty {}`
+#[derive(Serialize, Deserialize, Debug, PartialEq, Clone)]
+pub struct EmptyTuple();
+
+impl Describe for EmptyTuple {
+    fn ty() -> Value {
+        tuple_struct("EmptyTuple", vec![])
+    }
+}
+
+/// roots `from_type` refuses: a newtype of a scalar (`Newtype`), a unit struct (`UnitS`), `Option<record>`, an enum
+/// (`DataOnly`), a newtype of an Option of a record
+#[derive(Serialize, Deserialize, Debug, PartialEq, Clone)]
+pub struct NewtypeOfOption(pub Option<Inner>);
+
+impl Describe for NewtypeOfOption {
+    fn ty() -> Value {
+        newtype("NewtypeOfOption", d::<Option<Inner>>())
     }
 }
 
@@ -1303,6 +1363,7 @@ plain!(
     HasRenamedColor, Defaults, ContainerDefault, Skips, Wrap<SkipsInVariant>, Wrap<Meters>, TransparentStruct, HasTransparent,
     BorrowStr<'static>, BorrowBytes<'static>, BorrowCow<'static>, BorrowNested<'static>, Wrap<BorrowEnum<'static>>,
     Wrap<i32>, Wrap<Vec<Option<String>>>, Wrap<Wrap<Inner>>, serde_arrow::utils::Item<i64>, serde_arrow::utils::Item<DataOnly>,
+    NewtypeOfNewtype, NewtypeOfTuple, TupleStructRich, RootArray, EmptyTuple, Newtype, UnitS, Option<Inner>, DataOnly, NewtypeOfOption,
 );
 
 impl ZooTy for NestedOpt {
@@ -1405,6 +1466,16 @@ macro_rules! zoo_types {
             (Wrap<Wrap<Inner>>, "Wrap<Wrap<Inner>>", "struct-nested", []),
             (serde_arrow::utils::Item<i64>, "Item<i64>", "item-wrapper", []),
             (serde_arrow::utils::Item<DataOnly>, "Item<DataOnly>", "item-wrapper", []),
+            (NewtypeOfNewtype, "NewtypeOfNewtype", "newtype-root", []),
+            (NewtypeOfTuple, "NewtypeOfTuple", "newtype-root", []),
+            (TupleStructRich, "TupleStructRich", "tuple-struct-root", []),
+            (RootArray, "RootArray", "tuple-root", []),
+            (EmptyTuple, "EmptyTuple", "struct-empty-root", ["emptyroot"]),
+            (Newtype, "Newtype", "refused-root", ["badroot"]),
+            (UnitS, "UnitS", "refused-root", ["badroot"]),
+            (Option<Inner>, "Option<Inner>", "refused-root", ["badroot"]),
+            (DataOnly, "DataOnly", "refused-root", ["badroot"]),
+            (NewtypeOfOption, "NewtypeOfOption", "refused-root", ["badroot"]),
         }
     };
 }
